@@ -290,10 +290,29 @@ def r3_one_entry_per_part(ctx):
         ok = isinstance(c, ast.Call) and _callee(c) == 'append'
         rep.ob('C19.R3', ctx.loc(f, c), ctx.src(c), ok, 'appended at the end (source order kept)' if ok else 'entries are not appended in order', nontrivial=False, anchor=CONV)
     # the function body = docstring + header + body entries, in that order
-    bodies = [d for d in rd.defs_of('body') if d.kind == 'assign' and isinstance(d.value, ast.Call)]
+    # ... wherever it is written: bound to a local or handed on directly
+    bodies = []
+    for n_ in g.nodes:
+        if n_.dup or n_.kind not in ('stmt', 'test'):
+            continue
+        for c_ in node_calls(n_):
+            if isinstance(c_.func, ast.Attribute) and c_.func.attr == 'join' and const_str(c_.func.value) == '\n' and len(c_.args) == 1 and \
+                    isinstance(c_.args[0], ast.BinOp) and isinstance(c_.args[0].op, ast.Add):
+                bodies.append((n_, c_))
+    bodies += [(d.node, d.value) for d in rd.defs_of('body') if d.kind == 'assign' and isinstance(d.value, ast.Call) and not any(d.value is c_ for (_n, c_) in bodies)]
     rep.floor('C19.R3', 'assemblies of the function body', len(bodies), 1)
-    for d in bodies:
-        v = d.value
+
+    def is_docstring_list(node_, name):
+        ds = rd.at(node_, name)
+        return bool(ds) and all(isinstance(d_.value, ast.List) and d_.value.elts and const_str(d_.value.elts[0]) == '"""' for d_ in ds)
+
+    def same_list(node_, name, other):
+        if name == other:
+            return True
+        ds = rd.at(node_, name)
+        return bool(ds) and all(d_.kind == 'assign' and is_name(d_.value, other) for d_ in ds) or \
+            (bool(rd.at(node_, other)) and all(d_.kind == 'assign' and is_name(d_.value, name) for d_ in rd.at(node_, other)))
+    for (dn, v) in bodies:
         ok = isinstance(v.func, ast.Attribute) and v.func.attr == 'join' and const_str(v.func.value) == '\n' and len(v.args) == 1
         order = []
         if ok:
@@ -302,8 +321,9 @@ def r3_one_entry_per_part(ctx):
                 order.insert(0, ast.unparse(x.right))
                 x = x.left
             order.insert(0, ast.unparse(x))
-        ok = ok and order and order[-1] == bl and order[0] == 'docstr_lines'
-        rep.ob('C19.R3', ctx.loc(f, d.node.ast), ctx.src(v, 100), ok, 'docstring first, part texts last, one per line group' if ok else 'the body is not assembled as docstring + header + part texts', anchor=CONV)
+        ok = ok and order and (order[-1] == bl or (order[-1].isidentifier() and same_list(dn, order[-1], bl))) and \
+            (order[0] == 'docstr_lines' or (order[0].isidentifier() and is_docstring_list(dn, order[0])))
+        rep.ob('C19.R3', ctx.loc(f, v), ctx.src(v, 100), ok, 'docstring first, part texts last, one per line group' if ok else 'the body is not assembled as docstring + header + part texts', anchor=CONV)
 
 
 def r4_dropped_lines(ctx):
